@@ -551,6 +551,9 @@ func init() {
 	libModels[tm+"Sub"] = func(c *libCall) (Val, bool) {
 		return WithGo(App(SInt, "-", c.arg(0), c.arg(1)), c.sig.Results().At(0).Type()), true
 	}
+	libModels[tm+"Unix"] = func(c *libCall) (Val, bool) {
+		return WithGo(App(SInt, "div", c.arg(0), IntLit(1000000000)), types.Typ[types.Int64]), true
+	}
 	libModels[tm+"UnixNano"] = func(c *libCall) (Val, bool) { return WithGo(c.arg(0), types.Typ[types.Int64]), true }
 	libModels[tm+"IsZero"] = func(c *libCall) (Val, bool) { return Eq(c.arg(0), T{S: "TIME_ZERO", Sort: SInt}), true }
 	libModels[tm+"UTC"] = func(c *libCall) (Val, bool) { return c.arg(0), true }
